@@ -456,6 +456,31 @@ class Facts(dict):
     def __contains__(self, cs):
         return dict.__contains__(self, _fold(cs, True)[0])
 
+    def truth(self, text, env=None):
+        """truth of a (possibly compound) condition on this path, from the facts: True / False / None (not decided)"""
+        return self._truth(ast.parse(text, mode='eval').body, env)
+
+    def _truth(self, t, env):
+        whole = self.get(cond_str(t, env))
+        if whole is not None:
+            return whole
+        if isinstance(t, ast.UnaryOp) and isinstance(t.op, ast.Not):
+            v = self._truth(t.operand, env)
+            return None if v is None else (not v)
+        if isinstance(t, ast.BoolOp):
+            vals = [self._truth(v, env) for v in t.values]
+            if isinstance(t.op, ast.And):
+                if all(v is True for v in vals):
+                    return True
+                if any(v is False for v in vals):
+                    return False
+            else:
+                if any(v is True for v in vals):
+                    return True
+                if all(v is False for v in vals):
+                    return False
+        return None
+
 
 def path_events(p, env):
     """Ordered events of one path (sa/paths.Path): ('s', first line of the unparsed statement) for statements,
@@ -475,6 +500,27 @@ def rows(seq):
     """order-free form of [(condition pairs, outcome)] decision rows: which arm of an if comes first, and in which order the
     tests were made, is spelling; the set of (facts -> outcome) rows is the decision"""
     return sorted(((tuple(sorted((tuple(_fold(c[0], c[1])) for c in conds), key=repr)), out) for conds, out in seq), key=repr)
+
+
+def cond_atoms(test, env=None):
+    """atomic condition strings of a test (conjunctions/disjunctions flattened, negative atoms folded to their positive form)"""
+    out = []
+
+    def rec(c):
+        if c[0] in ('and', 'or'):
+            for x in c[1]:
+                rec(x)
+        else:
+            out.append(_fold(cstr(c), True)[0])
+    rec(cond_nf(test, env))
+    return out
+
+
+def outcome(text, pol, env=None):
+    """the condition pairs a branch on `text` taken with outcome `pol` puts on a path (conjunctions taken / disjunctions refused
+    are split into their parts, as sa/paths does)"""
+    from .paths import _outcome
+    return tuple(CP(cond_str(t, env), p) for _, t, p in _outcome(ast.parse(text, mode='eval').body, pol))
 
 
 def neg(cp):
